@@ -14,17 +14,23 @@ def strip(steps):
 
 def run(ctx):
     binp = vlib.build_harness()
-    ctx.rule = ("model families of C01 (windows on both sides of the 8-slot switch, trailing-zero weight vectors) and tag-model "
-                "families of C06, each replayed through the original predictor and through serialize_to_vec -> "
-                "deserialize_from_slice_unchecked(bytes ++ trailing); Trace_Pair requires identical observations and rest = "
-                "trailing bytes; non-trivial = model with at least one entry whose history contains a non-bias score")
-    fams = ["F2-ngram-and-word", "F3-wide-windows", "F4-type-ngrams", "F6-mixed"] if ctx.quick else None
+    ctx.rule = ("(a) enumerated: model families of C01 (windows on both sides of the 8-slot switch; with predict_tags on and off) and "
+                "tag-model families of C06 (tag models in both orders), each history replayed through the original predictor and "
+                "through serialize_to_vec -> deserialize_from_slice_unchecked(bytes ++ trailing); (b) seeded random models with "
+                "zero/extreme weights, 0..3 tag models, random trailing bytes; Trace_Pair requires identical observations and rest = "
+                "trailing bytes; non-trivial = case whose observations contain a score different from the bias or a tag")
+    fams = ["F3-wide-windows", "F6-mixed"] if ctx.quick else ["F2-ngram-and-word", "F3-wide-windows", "F4-type-ngrams", "F6-mixed"]
     hc = []
-    for i, (fam, c) in enumerate(_score.generate(ctx, True if ctx.quick else False, only=fams)):
-        hc.append(_score.to_history(len(hc), fam, c))
-    for fam, c in C06.generate(ctx, ctx.quick):
+    sc = _score.generate(ctx, True, only=fams)
+    stride = max(1, len(sc) // (150 if ctx.quick else 1500))
+    for fam, c in sc[::stride]:
+        c = dict(c, runs=c["runs"][-10:])
+        hc.append(_score.to_history(len(hc), fam, c, tags=(len(hc) % 2 == 0)))
+    tg = C06.generate(ctx, True)
+    stride = max(1, len(tg) // (150 if ctx.quick else 1500))
+    for fam, c in tg[::stride]:
+        c = dict(c, runs=c["runs"][-10:])
         hc.append(C06.to_history(len(hc), fam, c))
-    # two variants of every history
     a_cases, b_cases = [], []
     for h in hc:
         base = {k: v for k, v in h.items() if k not in ("expect", "key", "pred_expect")}
@@ -48,9 +54,33 @@ def run(ctx):
         ctx.evaluations += 1
         if any(isinstance(s["proj"], dict) and s["proj"].get("scores") and len(set(s["proj"]["scores"])) > 1 for s in ea):
             ctx.nontriv(h["id"])
-    rej, _ = vlib.validate_trace(ctx, "C14-pairs", "Trace_Pair", events, chunk=1500)
+    nenum = len(events)
+    rnd = vlib.record_parallel(binp, "serde", 1500 if ctx.quick else 40000, ctx.seed, "C14-serde-rand")
+    for e in rnd:
+        e["id"] = nenum + e["id"]
+        e["model_entries"] = len(e["model"]["cng"]) + len(e["model"]["tng"]) + len(e["model"]["dict"])
+        ctx.evaluations += 1
+        if e.get("ok") and e["a"] and any(isinstance(o, dict) and (len(set(o["scores"])) > 1 or o["ntags"]) for o in e["a"]):
+            ctx.nontriv(e["id"])
+    slim = [{k: v for k, v in e.items() if k != "model"} for e in rnd]
+    rej, _ = vlib.validate_trace(ctx, "C14-pairs", "Trace_Pair", events + slim, chunk=4000)
     byid = {h["id"]: (h, b) for h, b in zip(hc, b_cases)}
+    rbyid = {e["id"]: e for e in rnd}
     for rid in rej:
+        if rid in rbyid:
+            e = rbyid[rid]
+            what = "random model: deserialised predictor differs from the original"
+            if not e["ok"]:
+                what = f"random model: construction/deserialisation failed or a call panicked: {e.get('why', '')} a={str(e['a'])[:150]} b={str(e['b'])[:150]}"
+            elif e["rest"] != e["trail"]:
+                what = f"random model: rest {e['rest']} != trailing bytes {e['trail']}"
+            else:
+                for i, (p, q) in enumerate(zip(e["a"], e["b"])):
+                    if p != q:
+                        what = f"random model, text {i}: original {str(p)[:200]} deserialised {str(q)[:200]}"
+                        break
+            ctx.violation(f"C14:random:seed{e.get('driver_seed')}:id{rid}", what, {"kind": "serde-random", "event": e}, cls="C14:random:" + what[:40])
+            continue
         h, b = byid[rid]
         x, y = oa[rid], ob[rid]
         what = "deserialised predictor differs from the original"
@@ -64,9 +94,11 @@ def run(ctx):
                     what = f"step {k} ({b['ops'][k]['op']}): original {str(strip([s1]))[:200]} deserialised {str(strip([s2]))[:200]}"
                     break
         ctx.violation(f"C14:{h['key']}", what, {"kind": "pair", "a": {k: v for k, v in a_cases[rid].items()}, "b": b},
-                      cls="C14:pair")
+                      cls="C14:pair:" + what[:30])
     ctx.sample({"model": hc[0]["preds"][0]["model"], "trailing": TRAILS[0], "ops": hc[0]["ops"][:4]})
-    ctx.add_part(histories=len(hc), rejected=len(rej))
+    if rnd:
+        ctx.sample({"random_event": {k: v for k, v in rnd[0].items() if k not in ("model",)}})
+    ctx.add_part(enumerated_histories=len(hc), random_models=len(rnd), rejected=len(rej))
 
 
 def replay(ctx, path):
